@@ -1,0 +1,85 @@
+//! Verification hooks (cfg `emmyluals_emmylua_analyzer_rust_verif` only; absent from normal builds).
+//!
+//! Two extra request methods that a harness can send to the in-process server:
+//!
+//! * `verif/task {"mode": "ok"|"none"|"panic", "ms": n}` — runs a synthetic handler through the
+//!   real `ServerContext::task` wrapper: it waits `ms` milliseconds (or until its cancellation
+//!   token fires) and then returns a result, returns `None`, or panics.  This is the only way to
+//!   exercise the `None`/panic/cancel branches of the wrapper deterministically.
+//! * `verif/docState {"uris": [...]}` — answered inline on the main loop: for every uri whether the
+//!   workspace manager holds an editor text for it (and that text) and the text the analysis
+//!   currently holds for it.
+use lsp_server::{Request, Response};
+use serde_json::{Value, json};
+use std::str::FromStr;
+
+use crate::context::ServerContext;
+
+/// Returns `None` when the request was consumed by a hook, otherwise gives it back.
+pub async fn intercept(req: Request, context: &mut ServerContext) -> Option<Request> {
+    match req.method.as_str() {
+        "verif/task" => {
+            let id = req.id.clone();
+            let mode = req
+                .params
+                .get("mode")
+                .and_then(Value::as_str)
+                .unwrap_or("ok")
+                .to_string();
+            let ms = req.params.get("ms").and_then(Value::as_u64).unwrap_or(0);
+            context
+                .task(id.clone(), move |cancel_token| async move {
+                    tokio::select! {
+                        _ = cancel_token.cancelled() => {}
+                        _ = tokio::time::sleep(std::time::Duration::from_millis(ms)) => {}
+                    }
+                    match mode.as_str() {
+                        "panic" => panic!("verif: injected handler panic"),
+                        "none" => None,
+                        _ => Some(Response::new_ok(id, json!("verif-ok"))),
+                    }
+                })
+                .await;
+            None
+        }
+        "verif/docState" => {
+            let snapshot = context.snapshot();
+            let uris: Vec<String> = req
+                .params
+                .get("uris")
+                .and_then(Value::as_array)
+                .map(|a| {
+                    a.iter()
+                        .filter_map(|v| v.as_str().map(str::to_string))
+                        .collect()
+                })
+                .unwrap_or_default();
+            let mut out = Vec::new();
+            for s in uris {
+                let Ok(uri) = lsp_types::Uri::from_str(&s) else {
+                    out.push(json!({"uri": s, "error": "bad uri"}));
+                    continue;
+                };
+                let open = {
+                    let workspace_manager = snapshot.workspace_manager().read().await;
+                    workspace_manager.verif_open_text(&uri)
+                };
+                let analysed = {
+                    let analysis = snapshot.analysis().read().await;
+                    analysis.get_file_id(&uri).and_then(|file_id| {
+                        analysis
+                            .compilation
+                            .get_db()
+                            .get_vfs()
+                            .get_file_content(&file_id)
+                            .cloned()
+                    })
+                };
+                out.push(json!({"uri": s, "open": open, "analysed": analysed}));
+            }
+            context.send(Response::new_ok(req.id.clone(), json!(out)));
+            None
+        }
+        _ => Some(req),
+    }
+}
